@@ -1084,174 +1084,232 @@ func c18EmitProtocol(c *Ctx, rule string) {
 			recv := fn.Params[0]
 			rn := PN(recv)
 			cut := 0
-			seqs, trunc := ConcPaths(fn, ConcCfg{
-				MaxIter: 3, IterClosures: true, Cut: &cut, MaxStates: 400000,
-				Inline: func(h *ssa.Function) bool { return !emitters[h] && FNm(h) != "convertAttrToField" },
-				Event: func(in ssa.Instruction, st *ConcState) string {
-					switch x := in.(type) {
-					case *ssa.Call:
-						if f := StaticCallee(x); f != nil && emitters[f] {
-							return "emit"
+			// WithAttrs is explored once for every length 0..3 of its attribute list (a list sized from that length -
+			// make([]Field, len(attrs)) - is then evident element by element)
+			lens := []int64{-1}
+			if fn == wa && len(fn.Params) == 2 {
+				lens = []int64{0, 1, 2, 3}
+			}
+			var seqs []string
+			trunc := false
+			seenSeq := map[string]bool{}
+			for _, alen := range lens {
+				alen := alen
+				seqs1, trunc1 := ConcPaths(fn, ConcCfg{
+					SliceLen: func(p *ssa.Parameter) (int64, bool) {
+						if alen >= 0 && p == fn.Params[1] {
+							return alen, true
 						}
-						switch {
-						case IsCallTo(x, SlogPath+".convertAttrToField"):
-							return "attr"
-						case IsCallTo(x, "go.uber.org/zap.Namespace"):
-							return "ns"
-						case IsCallTo(x, "(go.uber.org/zap/zapcore.Core).With"):
-							return "with"
-						case IsCallTo(x, "(*go.uber.org/zap/zapcore.CheckedEntry).Write"):
-							return "write"
-						case CallBuiltin(x) == "append":
-							if sl, ok := types.Unalias(x.Type()).Underlying().(*types.Slice); ok && strings.HasSuffix(sl.Elem().String(), "zapcore.Field") {
-								return "add"
+						return 0, false
+					},
+					MaxIter: 3, IterClosures: true, Cut: &cut, MaxStates: 400000,
+					Inline: func(h *ssa.Function) bool { return !emitters[h] && FNm(h) != "convertAttrToField" },
+					// what an emitter returns: the list it was handed plus the pending groups (one marker element)
+					Fork: func(in ssa.Instruction, st *ConcState) []ConcAlt {
+						x, ok := in.(*ssa.Call)
+						if !ok || StaticCallee(x) == nil || !emitters[StaticCallee(x)] {
+							return nil
+						}
+						for _, a := range x.Call.Args {
+							if !isFieldList(a.Type()) {
+								continue
+							}
+							if base, has := st.ListOf(a); has {
+								return []ConcAlt{{Lists: map[ssa.Value][]ssa.Value{x: append(append([]ssa.Value{}, base...), x)}}}
 							}
 						}
-					case *ssa.Store:
-						if fa, ok := x.Addr.(*ssa.FieldAddr); ok && fieldName(fa.X.Type(), fa.Field) == slogGroups {
-							base := Strip(fa.X)
-							for k := 0; k < 6; k++ {
-								if nx := st.Step(base); nx != nil {
-									base = Strip(nx)
+						return nil
+					},
+					Event: func(in ssa.Instruction, st *ConcState) string {
+						switch x := in.(type) {
+						case *ssa.Call:
+							if f := StaticCallee(x); f != nil && emitters[f] {
+								return "emit"
+							}
+							// what is finally handed on, element by element, when the list was built evidently on this path
+							if IsCallTo(x, "(go.uber.org/zap/zapcore.Core).With") || IsCallTo(x, "(*go.uber.org/zap/zapcore.CheckedEntry).Write") {
+								nm := "with"
+								if IsCallTo(x, "(*go.uber.org/zap/zapcore.CheckedEntry).Write") {
+									nm = "write"
+								}
+								a := x.Call.Args[len(x.Call.Args)-1]
+								if l, has := st.ListOf(a); has {
+									tags := ""
+									for _, e := range l {
+										tags += c18ElemTag(st, e, emitters)
+									}
+									return nm + "[" + tags + "]"
+								}
+								return nm
+							}
+							switch {
+							case IsCallTo(x, SlogPath+".convertAttrToField"):
+								return "attr"
+							case IsCallTo(x, "go.uber.org/zap.Namespace"):
+								return "ns"
+							case IsCallTo(x, "(go.uber.org/zap/zapcore.Core).With"):
+								return "with"
+							case IsCallTo(x, "(*go.uber.org/zap/zapcore.CheckedEntry).Write"):
+								return "write"
+							case CallBuiltin(x) == "append":
+								if sl, ok := types.Unalias(x.Type()).Underlying().(*types.Slice); ok && strings.HasSuffix(sl.Elem().String(), "zapcore.Field") {
+									return "add"
 								}
 							}
-							if Root(base) == ssa.Value(recv) {
-								return "store-receiver-groups"
+						case *ssa.Store:
+							if fa, ok := x.Addr.(*ssa.FieldAddr); ok && fieldName(fa.X.Type(), fa.Field) == slogGroups {
+								base := Strip(fa.X)
+								for k := 0; k < 6; k++ {
+									if nx := st.Step(base); nx != nil {
+										base = Strip(nx)
+									}
+								}
+								if Root(base) == ssa.Value(recv) {
+									return "store-receiver-groups"
+								}
+								if n, known := st.IsNil(x.Val); known && n {
+									return "clear"
+								}
+								// keeping the parent's pending groups in a freshly built handler is no event
+								v := x.Val
+								for k := 0; k < 8; k++ {
+									if ownedBy(v, recv, 0) || st.Desc(v) == rn+"."+slogGroups {
+										return ""
+									}
+									nx := st.Step(v)
+									if nx == nil {
+										break
+									}
+									v = nx
+								}
+								return "set-groups"
 							}
-							if n, known := st.IsNil(x.Val); known && n {
-								return "clear"
+						}
+						return ""
+					},
+					Branch: func(cond ssa.Value, taken bool, st *ConcState) string {
+						pol := taken
+						for k := 0; k < 8; k++ {
+							if u, ok := cond.(*ssa.UnOp); ok && u.Op == token.NOT {
+								cond, pol = u.X, !pol
+								continue
 							}
-							// keeping the parent's pending groups in a freshly built handler is no event
-							v := x.Val
+							if nx := st.Step(cond); nx != nil {
+								cond = nx
+								continue
+							}
+							break
+						}
+						tf := func(n string, v bool) string {
+							if v {
+								return n + "=T"
+							}
+							return n + "=F"
+						}
+						bo, ok := cond.(*ssa.BinOp)
+						if !ok {
+							return ""
+						}
+						isConv := func(v ssa.Value) bool {
+							v = Strip(v)
 							for k := 0; k < 8; k++ {
-								if ownedBy(v, recv, 0) || st.Desc(v) == rn+"."+slogGroups {
-									return ""
+								if cl, ok := v.(*ssa.Call); ok && IsCallTo(cl, SlogPath+".convertAttrToField") {
+									return true
 								}
 								nx := st.Step(v)
 								if nx == nil {
-									break
+									return false
 								}
-								v = nx
+								v = Strip(nx)
 							}
-							return "set-groups"
-						}
-					}
-					return ""
-				},
-				Branch: func(cond ssa.Value, taken bool, st *ConcState) string {
-					pol := taken
-					for k := 0; k < 8; k++ {
-						if u, ok := cond.(*ssa.UnOp); ok && u.Op == token.NOT {
-							cond, pol = u.X, !pol
-							continue
-						}
-						if nx := st.Step(cond); nx != nil {
-							cond = nx
-							continue
-						}
-						break
-					}
-					tf := func(n string, v bool) string {
-						if v {
-							return n + "=T"
-						}
-						return n + "=F"
-					}
-					bo, ok := cond.(*ssa.BinOp)
-					if !ok {
-						return ""
-					}
-					isConv := func(v ssa.Value) bool {
-						v = Strip(v)
-						for k := 0; k < 8; k++ {
-							if cl, ok := v.(*ssa.Call); ok && IsCallTo(cl, SlogPath+".convertAttrToField") {
-								return true
-							}
-							nx := st.Step(v)
-							if nx == nil {
-								return false
-							}
-							v = Strip(nx)
-						}
-						return false
-					}
-					isSkip := func(v ssa.Value) bool {
-						cl, ok := Strip(v).(*ssa.Call)
-						return ok && IsCallTo(cl, "go.uber.org/zap.Skip")
-					}
-					if (isConv(bo.X) && isSkip(bo.Y) || isConv(bo.Y) && isSkip(bo.X)) && (bo.Op == token.NEQ || bo.Op == token.EQL) {
-						return tf("real", pol == (bo.Op == token.NEQ))
-					}
-					x, y, op := st.Desc(bo.X), st.Desc(bo.Y), bo.Op
-					// len(<something that on this path holds the receiver's pending groups>)
-					lenOfGroups := func(v ssa.Value) bool {
-						lc, ok := Strip(v).(*ssa.Call)
-						if !ok || CallBuiltin(lc) != "len" {
 							return false
 						}
-						a := lc.Call.Args[0]
-						for k := 0; k < 8; k++ {
-							if st.Desc(a) == rn+"."+slogGroups {
-								return true
+						isSkip := func(v ssa.Value) bool {
+							cl, ok := Strip(v).(*ssa.Call)
+							return ok && IsCallTo(cl, "go.uber.org/zap.Skip")
+						}
+						if (isConv(bo.X) && isSkip(bo.Y) || isConv(bo.Y) && isSkip(bo.X)) && (bo.Op == token.NEQ || bo.Op == token.EQL) {
+							return tf("real", pol == (bo.Op == token.NEQ))
+						}
+						x, y, op := st.Desc(bo.X), st.Desc(bo.Y), bo.Op
+						// len(<something that on this path holds the receiver's pending groups>)
+						lenOfGroups := func(v ssa.Value) bool {
+							lc, ok := Strip(v).(*ssa.Call)
+							if !ok || CallBuiltin(lc) != "len" {
+								return false
 							}
-							// the groups field of something that on this path IS the receiver (a handler kept in a
-							// local struct next to the fields being collected)
-							if ld, isLd := a.(*ssa.UnOp); isLd && ld.Op == token.MUL {
-								if fa, isFA := ld.X.(*ssa.FieldAddr); isFA && fieldName(fa.X.Type(), fa.Field) == slogGroups {
-									b := Strip(fa.X)
-									for j := 0; j < 8; j++ {
-										nx := st.Step(b)
-										if nx == nil {
-											break
+							a := lc.Call.Args[0]
+							for k := 0; k < 8; k++ {
+								if st.Desc(a) == rn+"."+slogGroups {
+									return true
+								}
+								// the groups field of something that on this path IS the receiver (a handler kept in a
+								// local struct next to the fields being collected)
+								if ld, isLd := a.(*ssa.UnOp); isLd && ld.Op == token.MUL {
+									if fa, isFA := ld.X.(*ssa.FieldAddr); isFA && fieldName(fa.X.Type(), fa.Field) == slogGroups {
+										b := Strip(fa.X)
+										for j := 0; j < 8; j++ {
+											nx := st.Step(b)
+											if nx == nil {
+												break
+											}
+											b = Strip(nx)
 										}
-										b = Strip(nx)
-									}
-									if b == ssa.Value(recv) {
-										return true
-									}
-									// ... or of a copy of the receiver (cloned := *h) whose groups were not replaced yet
-									if al, isAl := b.(*ssa.Alloc); isAl {
-										fs := st.FieldsOf(al)
-										if _, replaced := fs[slogGroups]; !replaced && (fs["*"] == "*"+rn || fs["*"] == rn) {
+										if b == ssa.Value(recv) {
 											return true
+										}
+										// ... or of a copy of the receiver (cloned := *h) whose groups were not replaced yet
+										if al, isAl := b.(*ssa.Alloc); isAl {
+											fs := st.FieldsOf(al)
+											if _, replaced := fs[slogGroups]; !replaced && (fs["*"] == "*"+rn || fs["*"] == rn) {
+												return true
+											}
 										}
 									}
 								}
+								nx := st.Step(a)
+								if nx == nil {
+									return false
+								}
+								a = nx
 							}
-							nx := st.Step(a)
-							if nx == nil {
-								return false
+							return false
+						}
+						if os.Getenv("ZV_DEBUG") != "" {
+							if lc, ok := Strip(bo.X).(*ssa.Call); ok && CallBuiltin(lc) == "len" {
+								a := lc.Call.Args[0]
+								fmt.Println("LEN", st.Desc(a), "step:", st.Step(a), lenOfGroups(bo.X))
 							}
-							a = nx
 						}
-						return false
-					}
-					if os.Getenv("ZV_DEBUG") != "" {
-						if lc, ok := Strip(bo.X).(*ssa.Call); ok && CallBuiltin(lc) == "len" {
-							a := lc.Call.Args[0]
-							fmt.Println("LEN", st.Desc(a), "step:", st.Step(a), lenOfGroups(bo.X))
+						if lenOfGroups(bo.X) {
+							x = "len(" + rn + "." + slogGroups + ")"
 						}
-					}
-					if lenOfGroups(bo.X) {
-						x = "len(" + rn + "." + slogGroups + ")"
-					}
-					if lenOfGroups(bo.Y) {
-						y = "len(" + rn + "." + slogGroups + ")"
-					}
-					if y == "len("+rn+"."+slogGroups+")" && x == "0" {
-						x, y, op = y, x, swapOp(op)
-					}
-					if x == "len("+rn+"."+slogGroups+")" && y == "0" {
-						switch op {
-						case token.GTR, token.NEQ:
-							return tf("pending", pol)
-						case token.EQL, token.LEQ:
-							return tf("pending", !pol)
+						if lenOfGroups(bo.Y) {
+							y = "len(" + rn + "." + slogGroups + ")"
 						}
+						if y == "len("+rn+"."+slogGroups+")" && x == "0" {
+							x, y, op = y, x, swapOp(op)
+						}
+						if x == "len("+rn+"."+slogGroups+")" && y == "0" {
+							switch op {
+							case token.GTR, token.NEQ:
+								return tf("pending", pol)
+							case token.EQL, token.LEQ:
+								return tf("pending", !pol)
+							}
+						}
+						return ""
+					},
+				})
+				trunc = trunc || trunc1
+				for _, sq := range seqs1 {
+					if !seenSeq[sq] {
+						seenSeq[sq] = true
+						seqs = append(seqs, sq)
 					}
-					return ""
-				},
-			})
+				}
+			}
+			sort.Strings(seqs)
 			n := FStr(fn)
 			if trunc || len(seqs) == 0 {
 				c.Und(rule, n, "emission-protocol", fn.Pos(), "path exploration incomplete (%d sequences, truncated=%v)", len(seqs), trunc)
@@ -1307,6 +1365,12 @@ func c18EmitProtocol(c *Ctx, rule string) {
 					}
 				}
 				for _, e := range ev {
+					if strings.HasPrefix(e, "with[") {
+						e = "with"
+					}
+					if strings.HasPrefix(e, "write[") {
+						e = "write"
+					}
 					switch e {
 					case "attr":
 						flush()
@@ -1354,6 +1418,14 @@ func c18EmitProtocol(c *Ctx, rule string) {
 				}
 				if fn == hd && cleared {
 					why = "Handle must not clear groups"
+				}
+				// the other way to see it: the list finally handed on. When it is evident, it decides: skipped fields,
+				// then - if groups are pending and a real field follows - the groups once, then the rest
+				if lw, decided := c18ListVerdict(ev, fn == wa, pendF || pathPend["pending=F"]); decided {
+					why = lw
+					if lw == "" && strings.Contains(sq, "[") && strings.Contains(sq, "G") {
+						nEmit++
+					}
 				}
 				if why != "" {
 					bad = append(bad, why+": "+sq)
@@ -1457,4 +1529,110 @@ func c18GroupsField(c *Ctx) {
 			}
 		}
 	}
+}
+
+func isFieldList(t types.Type) bool {
+	sl, ok := types.Unalias(t).Underlying().(*types.Slice)
+	return ok && strings.HasSuffix(sl.Elem().String(), "zapcore.Field")
+}
+
+// c18ElemTag: one element of the field list handed on: S a converted attribute known to be Skip on this path, R one
+// known not to be, A one of which neither is known, G the pending groups (what an emitter appended), N one namespace
+// appended directly, ? anything else.
+func c18ElemTag(st *ConcState, e ssa.Value, emitters map[*ssa.Function]bool) string {
+	if e == nil {
+		return "?"
+	}
+	v := e
+	for k := 0; k < 12; k++ {
+		nx := st.Step(v)
+		if nx == nil {
+			break
+		}
+		v = nx
+	}
+	call, ok := Underlying(v).(*ssa.Call)
+	if !ok {
+		return "?"
+	}
+	switch {
+	case StaticCallee(call) != nil && emitters[StaticCallee(call)]:
+		return "G"
+	case IsCallTo(call, "go.uber.org/zap.Namespace"):
+		return "N"
+	case IsCallTo(call, "go.uber.org/zap.Skip"):
+		return "S"
+	case IsCallTo(call, SlogPath+".convertAttrToField"):
+		isSkip := func(o ssa.Value) bool {
+			oc, isC := Underlying(o).(*ssa.Call)
+			return isC && IsCallTo(oc, "go.uber.org/zap.Skip")
+		}
+		if eq, known := st.EqualTo(v, isSkip); known {
+			if eq {
+				return "S"
+			}
+			return "R"
+		}
+		return "A"
+	}
+	return "?"
+}
+
+// c18ListVerdict decides a path by the list it finally hands to Core.With / CheckedEntry.Write, when that list is
+// evident (decided=false otherwise): why is "" when the list is what the pending-group protocol asks for.
+func c18ListVerdict(ev []string, isWithAttrs bool, notPending bool) (why string, decided bool) {
+	tags, cleared := "", false
+	found := false
+	for _, e := range ev {
+		for _, p := range []string{"with[", "write["} {
+			if strings.HasPrefix(e, p) {
+				tags, found = strings.TrimSuffix(strings.TrimPrefix(e, p), "]"), true
+			}
+		}
+		if e == "clear" {
+			cleared = true
+		}
+		if e == "store-receiver-groups" || e == "set-groups" {
+			return "the pending groups are overwritten (" + e + ")", true
+		}
+	}
+	if !found || strings.Contains(tags, "?") {
+		return "", false
+	}
+	// namespaces appended one by one count as the group block
+	norm := ""
+	for i := 0; i < len(tags); i++ {
+		ch := tags[i]
+		if ch == 'N' {
+			if i > 0 && tags[i-1] == 'N' {
+				continue
+			}
+			ch = 'G'
+		}
+		norm += string(ch)
+	}
+	g := strings.Index(norm, "G")
+	switch {
+	case strings.Count(norm, "G") > 1:
+		return "groups emitted twice", true
+	case g < 0:
+		// nothing emitted: fine when no groups are pending, or when nothing but skipped fields is handed on
+		if !notPending && strings.Trim(norm, "S") != "" {
+			return "a field is added without emitting although neither 'no groups pending' nor 'field is Skip' was established", true
+		}
+	default:
+		if strings.Trim(norm[:g], "S") != "" {
+			return "groups emitted after a field they should precede (or after a field not known to be Skip)", true
+		}
+		if g+1 >= len(norm) || norm[g+1] != 'R' {
+			return "groups emitted without a field known not to be Skip right after them (an empty group would appear)", true
+		}
+	}
+	if isWithAttrs && cleared != (g >= 0) {
+		return "the derived handler must drop its pending groups exactly when they were emitted into the core", true
+	}
+	if !isWithAttrs && cleared {
+		return "Handle must not clear groups", true
+	}
+	return "", true
 }
